@@ -1,14 +1,55 @@
 """C05 — see DESIGN.md section 4 ("the repository model") and lean/XvcRepo/XvcRepo/Props/C05.lean.
 Proof: Lean theorems about the executable repository model.  Tie: the model driver is compared with the rebuilt xvc
-binary after every command of generated histories.  Oracle: model-independent, lib/repo_check.py."""
+binary after every command of generated histories.  Oracle: model-independent, lib/repo_check.py O5.
+Besides the general history stream this check generates *sharing* histories on purpose: contents shared between paths
+in current AND in earlier recorded versions, then remove / untrack of one of the sharers with every option set."""
+import random
 import repo_check as rc
+from repo_check import W, T, CI, RC
 
 ORACLES = [rc.o5_removal]
 RESTORE = None
 
 
+def sharing_histories(seed, n):
+    rng = random.Random(seed * 31337 + 5)
+    out = []
+    exts = ['txt', 'bin', '']
+    for i in range(n):
+        e = rng.choice(exts)
+        nm = lambda s: s + ('.' + e if e else '')
+        a, b, c = nm('a'), nm('d/b'), nm('c')
+        X, Y, Z = [bytes(f'{t}-{i}-{rng.randint(0, 999)}\n', 'ascii') + (b'\x00' if rng.random() < 0.3 else b'') for t in 'XYZ']
+        cfg = {'algo': rng.choice([0, 0, 1, 2, 3]), 'method': rng.choice(['copy', 'copy', 'hardlink', 'symlink']), 'tob': 'auto'}
+        par = lambda: {'no_parallel': rng.random() < 0.5}
+        h = [W(a, X), W(b, X), T([a, b], **par())]
+        kind = rng.choice(['earlier-version-of-non-target', 'target-history', 'copy-share', 'three-way', 'mixed'])
+        if kind in ('earlier-version-of-non-target', 'mixed'):
+            h += [W(b, Y), CI([b], **par())]                                  # b: versions [X, Y]; a: [X]
+        if kind in ('target-history', 'mixed'):
+            h += [W(a, Z), CI([a], **par())]                                  # a: versions [X, Z]
+        if kind == 'copy-share':
+            h += [{'op': 'copy', 'src': a, 'dst': c}, W(a, Z), T([a], **par())]   # c shares a's FIRST version
+        if kind == 'three-way':
+            h += [W(c, X), T([c], **par()), W(c, Y), CI([c], **par()), W(b, Y), CI([b], **par())]
+        victim = rng.choice([a, b]) if kind != 'copy-share' else rng.choice([a, c])
+        op = rng.choice(['remove', 'remove-all', 'untrack', 'remove-force'])
+        if op == 'untrack':
+            h.append({'op': 'untrack', 'targets': [victim]})
+        else:
+            h.append({'op': 'remove', 'targets': [victim], 'all_versions': op == 'remove-all', 'force': op == 'remove-force'})
+        # what is left must still be restorable / removable
+        other = [p for p in (a, b, c) if p != victim]
+        h.append(RC(other[:2], force=True, **par()))
+        if rng.random() < 0.5:
+            h.append({'op': 'remove', 'targets': other[:1], 'all_versions': True})
+        out.append((f'sharing-{kind}-{op}-{i}', cfg, h))
+    return out
+
+
 def run(chk):
-    return rc.run_property(chk, 'C05', ORACLES, restore=RESTORE)
+    n = 60 if chk.tier == 'quick' else 600
+    return rc.run_property(chk, 'C05', ORACLES, restore=RESTORE, nq=220, extra_corpus=sharing_histories(chk.seed, n))
 
 
 def replay(chk, data):
